@@ -166,6 +166,7 @@ for _pid, _extra in (("C09", ""), ("C10", ""), ("C11", " — corpus kinds cycle 
     PROPS[_pid] = {
         "families": [_pid],
         **({"bin_build": extras.build_repo_bins, "extras": [extras.c11_cli_train]} if _pid == "C11" else {}),
+        **({"bin_build": extras.build_repo_bins, "extras": [extras.c12_cli_train]} if _pid == "C12" else {}),
         "nontrivial": lambda line, out: out.startswith("X"),
         "rule": _train_rule + _extra,
         "scopes": {},
